@@ -393,3 +393,15 @@ package core
 //@       ghost.cancel_calls == old(ghost.cancel_calls) + old(ghost.list_len[ref(c.cancelFuncs)]) - ghost.list_len[ref(c.cancelFuncs)]
 //@   ensures [every_pending_call_is_cancelled] ghost.cancel_calls == old(ghost.cancel_calls) + old(ghost.list_len[ref(c.cancelFuncs)])
 //@   ensures [no_registration_left] ghost.list_len[ref(c.cancelFuncs)] == 0
+
+// the goroutine Abort starts per transport: a root, nothing may escape it, and it always signals
+// the wait group so Abort returns
+//@ func (*Client).Abort$1
+//@   prop C11 C10
+//@   nopanic
+//@   havoc
+//@   modifies ghost.aborted, ghost.wg[*]
+//@   ensures [aborts_its_transport_once] ghost.aborted == old(ghost.aborted) + 1
+//@   ensures [signals_the_wait_group] ghost.wg[addr(wg)] == old(ghost.wg[addr(wg)]) - 1
+
+//@ rule goroutine_roots prop=C11
